@@ -208,6 +208,66 @@ def defid(d):
     return None if d is None or d.get("file") == "NOFILE" else (d["file"], d["idx"])
 
 
+def c08_field_orders(V, tier):
+    """C08 at FIELD level: what the index records for a definition (return type, docstring, scope, dependencies, autouse, yield
+    line, flags) must not depend on the registration order either.  Override chains over three conftest levels and the test
+    module, where an override leaves out what its parent spells (annotation, docstring, scope); every permutation of the files,
+    each twice (fresh hash seeds); the full snapshot of definitions and usages is compared after sorting."""
+    import itertools
+    C.build_harness()
+    PARENT = {"full": '@pytest.fixture(scope="session")\ndef engine() -> Engine:\n    """Parent engine."""\n    return Engine()\n',
+              "bare": "@pytest.fixture\ndef engine():\n    return 1\n"}
+    CHILD = {"plain": "@pytest.fixture\ndef engine(engine):\n    return engine\n",
+             "annotated": "@pytest.fixture\ndef engine(engine) -> Wrapped:\n    return engine\n",
+             "doc_only": '@pytest.fixture\ndef engine(engine):\n    """Child engine."""\n    return engine\n',
+             "yielding": "@pytest.fixture\ndef engine(engine):\n    yield engine\n",
+             "other_dep": "@pytest.fixture\ndef engine(engine, pool):\n    return engine\n"}
+    HEAD = "import pytest\n\n\n"
+    USE = "\n\ndef test_e(engine):\n    pass\n"
+    root = "/vws08f/R"
+    hcases, ctx = [], {}
+    combos = [(pk, c1, c2) for pk in sorted(PARENT) for c1 in sorted(CHILD) for c2 in [None] + sorted(CHILD)]
+    if tier == "quick":
+        combos = combos[::2]
+    n = 0
+    for pk, c1, c2 in combos:
+        files = {root + "/conftest.py": HEAD + PARENT[pk] + "\n\n@pytest.fixture\ndef pool():\n    return 2\n",
+                 root + "/a/conftest.py": HEAD + CHILD[c1],
+                 root + "/a/test_a.py": (HEAD + CHILD[c2] + USE) if c2 else USE.lstrip("\n"),
+                 root + "/a/b/test_b.py": USE.lstrip("\n")}
+        for perm in itertools.permutations(sorted(files)):
+            for rep in range(2):
+                ops = [{"op": "analyze", "path": p, "text": files[p]} for p in perm] + [{"op": "snapshot", "full": True}]
+                hcases.append({"id": n, "ops": ops})
+                ctx[n] = ((pk, c1, c2), perm, files)
+                n += 1
+    groups = {}
+    for res in C.run_harness(hcases, threads=8):
+        key, perm, files = ctx[res["id"]]
+        snap = res["res"][-1]
+        if not isinstance(snap, dict):
+            V.violation({"workspace": list(key), "order": list(perm), "result": str(snap)[:300]}, "analysis panicked on an override chain")
+            continue
+        norm = {"defs": sorted(json.dumps(d, sort_keys=True) for lst in snap["defs"].values() for d in lst),
+                "usages": {f: sorted(json.dumps(u, sort_keys=True) for u in us) for f, us in snap["usages"].items()}}
+        groups.setdefault(key, []).append((perm, norm, files))
+    for key, runs in groups.items():
+        V.count(len(runs))
+        V.nontriv(("field_orders",) + tuple(map(str, key)))
+        p0, n0, files = runs[0]
+        for perm, nm, _ in runs[1:]:
+            if nm != n0:
+                diff = sorted(set(nm["defs"]) ^ set(n0["defs"]))
+                V.violation({"parent": key[0], "override_in_a_conftest": key[1], "override_in_test_module": key[2], "files": files,
+                             "one_order": list(p0), "another_order": list(perm), "records_that_differ": diff[:6]},
+                            "what the index records for a definition (or the usages) depends on the registration order of the files")
+                break
+    return n
+
+
+NRUN = 6
+
+
 def c08_own_imports(V, tier):
     """C08 on the import universe (Imports.tla): the workspaces whose using file is a TEST MODULE that imports fixtures itself,
     next to an unrelated conftest.py in a sibling directory that defines every name too.  Files are on disk (imports are
@@ -257,19 +317,47 @@ def c08_own_imports(V, tier):
             for i2, it in enumerate(m["items"]):
                 if it["k"] == "def":
                     queries.append({"op": "refs", "path": uni.paths[s], "line1": files[s].item_line[i2 + 1], "name": it["name"]})
-        for k, first in enumerate((True, False)):
+        # the CLI's unused list is part of the snapshot; every second workspace also has a conftest.py ABOVE the workspace that
+        # defines every name (the sibling module then takes a name from there that the importing module takes from its import)
+        queries.append({"op": "unused"})
+        above = os.path.join(root, "conftest.py")
+        has_above = n % 2 == 1
+        if has_above:
+            with open(above, "w") as fh:
+                fh.write(sib_text)
+        # each order three times: a fresh database has fresh hash seeds, so the maps iterate in another order
+        for k in range(NRUN):
+            first = k % 2 == 0
             seq = [("sib", sib, sib_text), ("tsib", tsib, tsib_text)] if first else []
+            seq += [("above", above, sib_text)] if has_above and first else []
             seq += [(s, uni.paths[s], files[s].text) for s in order]
             if not first:
-                seq += [("tsib", tsib, tsib_text), ("sib", sib, sib_text)]
+                seq += [("tsib", tsib, tsib_text), ("sib", sib, sib_text)] + ([("above", above, sib_text)] if has_above else [])
             ops = [{"op": "analyze", "path": p, "text": t} for _, p, t in seq] + queries
-            hcases.append({"id": 2 * n + k, "ops": ops})
-        ctx[n] = (c, root, len(order) + 2, {s: f.text for s, f in files.items()})
+            hcases.append({"id": NRUN * n + k, "ops": ops})
+        ctx[n] = (c, root, len(order) + 2 + (1 if has_above else 0), {s: f.text for s, f in files.items()}, has_above)
     res = {r["id"]: r["res"] for r in C.run_harness(hcases, threads=8)}
-    for n, (c, root, nan, texts) in ctx.items():
-        a, b = res[2 * n][nan:], res[2 * n + 1][nan:]
+    for n, (c, root, nan, texts, has_above) in ctx.items():
         V.count()
         V.nontriv("ownimp" + json.dumps(c["shape"], sort_keys=True))
+        for k in range(2, NRUN):
+            x, y = res[NRUN * n + k][nan:], res[NRUN * n + k - 2][nan:]
+
+            def norm0(v):
+                if isinstance(v, list):
+                    return sorted((d.get("name"), os.path.relpath(d.get("file", "?"), root), d.get("line"), d.get("sc")) for d in v)
+                if isinstance(v, dict) and "file" in v:
+                    return (os.path.relpath(v["file"], root), v.get("line"))
+                return v
+            if [norm0(v) for v in x] != [norm0(v) for v in y]:
+                kk = next(i for i in range(len(x)) if norm0(x[i]) != norm0(y[i]))
+                V.violation({"import_shape": c["shape"], "query_number": kk, "conftest_above_the_workspace": has_above,
+                             "one_run": norm0(x[kk]), "another_run_same_order": norm0(y[kk]),
+                             "files": dict(texts, **{"R/other/conftest.py": sib_text})},
+                            "answers for a test module that imports fixtures itself differ between two runs of the SAME registration order "
+                            "(fresh databases, fresh hash seeds)")
+                break
+        a, b = res[NRUN * n][nan:], res[NRUN * n + 1][nan:]
 
         def norm(x):
             if isinstance(x, list):
